@@ -41,6 +41,9 @@ CLASSES = {cls.IDENTIFIER: cls for cls in ErrorResponse.__subclasses__()}
 DB = {(1, 3, 6, 1, 2, 1, 5, 1, i): ("int", i) for i in range(1, 7)}
 DB[(1, 3, 6, 1, 2, 1, 6, 1, 1)] = ("str", b"after")
 KEYS = sorted(DB)
+# 300 more objects (outside every walked subtree) for requests with hundreds of bindings
+BIGKEYS = [(1, 3, 6, 1, 2, 1, 8, 1, i) for i in range(1, 301)]
+DB.update({k: ("int", k[-1]) for k in BIGKEYS})
 ROOT = (1, 3, 6, 1, 2, 1, 5)
 ENTRY = (1, 3, 6, 1, 2, 1, 5, 1)
 
@@ -84,6 +87,8 @@ def call(w, op, nreq):
         return drive(c.get(OID(oids[0])))
     if op == "pyget":
         return drive(p.get(rig.oid_s(oids[0])))
+    if op == "multiget300":
+        return drive(c.multiget([OID(o) for o in BIGKEYS[:nreq]]))
     if op == "multiget":
         return drive(c.multiget([OID(o) for o in oids]))
     if op == "pymultiget":
@@ -197,6 +202,54 @@ def run_case(R, level, op, status, index, nvb, when, nreq=1, reboot=False):
     R.mon["next_request_after_error_ok"] += 1
 
 
+def thread_stress(R):
+    """The very first error responses this process ever handles arrive in six threads at
+    once (each thread its own event loop, client and agent), with thread switches forced
+    between the library's statements: every thread still gets the documented class."""
+    import asyncio
+
+    from .. import threads
+
+    statuses = (18, 1, 17, 5, 13, 2)
+    # first the factory on its own (the tightest window), then whole exchanges
+    direct = [[(lambda st=st: type(ErrorResponse.construct(st, OID(KEYS[0]))).__name__, CLASSES[st].__name__)] * 4 for st in (18, 17, 16, 15, 1, 2, 9, 12)]
+    bad0, stats0 = threads.run(direct, rounds=1)
+    R.mon["thread_stress_calls"] += stats0["calls"]
+    for ti, ji, got, want in bad0[:3]:
+        R.violation({"level": "v2c", "op": "threads", "status": 0, "index": 1, "nvb": None, "when": 0, "nreq": 1}, "eight threads build their first error exceptions at once: got %r, documented is %r" % (got, want), None)
+    jobs = []
+    for ti, status in enumerate(statuses):
+        w = World("v2c", DB)
+        w.agent.pdu_hook = make_hook(status, 1, None, -1)  # never by count ...
+        hook_status = status
+
+        def always(req, resp, status=hook_status):
+            return {"type": 0xA2, "request_id": resp["request_id"], "error_status": status, "error_index": 1, "varbinds": [(o, ("null", None)) for o, _ in req["varbinds"]]}
+
+        w.agent.pdu_hook = always
+
+        def job(w=w):
+            try:
+                asyncio.run(w.client.get(OID(KEYS[0])))
+                return ("returned",)
+            except ErrorResponse as exc:
+                return (type(exc).__name__, exc.error_status)
+
+        jobs.append([(job, (CLASSES[status].__name__, status))] * 3)
+    bad, stats = threads.run(jobs, rounds=1)
+    R.notes["thread_stress"] = stats
+    R.mon["thread_stress_calls"] += stats["calls"]
+    R.evaluations += stats["calls"]
+    R.case(("c08-threads",), True)
+    if stats["hung_threads"]:
+        R.inconclusive("thread stress: %d threads did not finish" % stats["hung_threads"])
+        return
+    for ti, ji, got, want in bad[:3]:
+        R.violation({"level": "v2c", "op": "threads", "status": statuses[ti], "index": 1, "nvb": None, "when": 0, "nreq": 1}, "six threads handle their first error responses at once: status %d surfaced as %r, documented is %r" % (statuses[ti], got, want), None)
+    if not bad:
+        R.mon["thread_stress_ok"] += 1
+
+
 def matrix():
     """Yield (op, status, index, nvb, when, nreq)."""
     for op in SINGLE_OPS:
@@ -227,6 +280,7 @@ def matrix():
 
 def run(R):
     full = R.tier == "thorough"
+    thread_stress(R)  # in every shard, before this process has seen any error response
     cases = list(matrix())
     R.notes["matrix_size_per_level"] = len(cases)
     k = 0
@@ -244,6 +298,18 @@ def run(R):
             if not R.time_left():
                 return
             run_case(R, level, op, status, index, nvb, when, nreq)
+    # hundreds of bindings: error-index values around 127/128 and 256/257 that DO name a
+    # binding
+    for level in ("v2c", "v1", "v3-md5-priv"):
+        for nreq in (130, 300):
+            for index in (1, 127, 128, 129, 130, 255, 256, 257, 258, 299, 300, 301):
+                if index > nreq + 1:
+                    continue
+                k += 1
+                if not R.mine(k):
+                    continue
+                run_case(R, level, "multiget300", (5, 17, 2)[index % 3], index, None, 0, nreq)
+                R.mon["errors_in_requests_with_hundreds_of_bindings"] += 1
     for level in rig.AUTH_LEVELS:
         for op in SINGLE_OPS + ("walk", "bulkwalk"):
             for status, index in ((1, 0), (2, 1), (5, 1), (13, 2), (18, 1), (19, 1), (-1, 0)):
@@ -256,4 +322,7 @@ def run(R):
 
 def replay(R, v):
     c = v["case"]
+    if c.get("op") == "threads":
+        thread_stress(R)
+        return
     run_case(R, c["level"], c["op"], c["status"], c["index"], c["nvb"], c["when"], c.get("nreq", 1), reboot=c.get("reboot", False))
